@@ -85,9 +85,21 @@ def check_transparency(run, rule):
         if any(callee_qn(c) == "CDNS::CdnsBlockRead::read" for c in ir.calls_in(st)):
             idx_read = i
     ok = final_ret is not None and idx_read is not None and idx_read < len(body) - 1 and body[idx_read].get("k") != "If"
+    why_ok = "the non-eof return follows the unconditional block.read(...)"
+    if not ok and rb.get("params"):
+        # the other shape: every path runs into one final return and the read is skipped exactly when the end-of-input flag
+        # (the by-reference parameter) was set:  if (!eof) { block.read(..); }  return block;
+        flag = ("nz", "p:%s" % rb["params"][0]["n"])
+        env5 = ir.Env(rb["body"])
+        g_read = [g for st, g, loops in ir.guarded_statements(rb["body"], env5) if st.get("k") not in ("IfCond", "LoopHead", "SwitchHead")
+                  and any(callee_qn(c) == "CDNS::CdnsBlockRead::read" for c in ir.calls_in(st))]
+        rets5 = [st for st, g, loops in ir.guarded_statements(rb["body"], env5) if st.get("k") == "Return"]
+        if len(g_read) == 1 and len(rets5) == 1 and final_ret is not None and ir.conjuncts(g_read[0]) == [("not", flag)]:
+            ok = True
+            why_ok = "one return; block.read(...) is skipped exactly when the end-of-input flag is set"
     run.ob(rule, "read_block:return-after-read", ok, rb, rb["line"],
-           "the non-eof return follows the unconditional block.read(...)" if ok else
-           "read_block must call block.read() unconditionally before its final return")
+           why_ok if ok else
+           "read_block must call block.read() before it returns a block with eof == false")
     # eof=true only on the two end-of-array paths
     run.floor(rule, 20, "functions on the read path")
     run.info["read_path_functions"] = n
